@@ -319,6 +319,43 @@ fn default_named_non_object_roots(ctx: &mut Ctx) {
     }
 }
 
+/// Every combination, per operation kind, of what the default-named type is (absent, an object, an
+/// interface) and what the explicit schema definition says for that kind (nothing, the default
+/// name, a custom-named object): 9^3 documents. With no entry at all the schema definition is
+/// implicit. A default-named object that is deliberately NOT a root must stay a non-root.
+fn root_name_matrix(ctx: &mut Ctx) {
+    let kinds = [("query", "Query"), ("mutation", "Mutation"), ("subscription", "Subscription")];
+    for code in 0u64..729 {
+        if !ctx.mine(code) {
+            continue;
+        }
+        let mut c = code;
+        let mut text = String::from("type Obj { o: Int }\n");
+        let mut roots = String::new();
+        for (op, name) in kinds {
+            let (ty_state, entry) = (c % 3, (c / 3) % 3);
+            c /= 9;
+            match ty_state {
+                1 => text.push_str(&format!("type {name} {{ f{op}: Int }}\n")),
+                2 => text.push_str(&format!("interface {name} {{ f{op}: Int }}\n")),
+                _ => {}
+            }
+            match entry {
+                1 => roots.push_str(&format!(" {op}: {name}")),
+                2 => {
+                    text.push_str(&format!("type R{name} {{ r{op}: Int }}\n"));
+                    roots.push_str(&format!(" {op}: R{name}"));
+                }
+                _ => {}
+            }
+        }
+        if !roots.is_empty() {
+            text.push_str(&format!("schema {{{roots} }}\n"));
+        }
+        check_case(ctx, &text, "root_name_matrix");
+    }
+}
+
 pub fn run(ctx: &mut Ctx) {
     let src = TextSource::new();
     if ctx.shard == 0 {
@@ -327,6 +364,7 @@ pub fn run(ctx: &mut Ctx) {
         }
         default_named_non_object_roots(ctx);
     }
+    root_name_matrix(ctx);
     interleavings(ctx);
     // corpus (type-system part of each file)
     let corpus = util::corpus_schema_texts(&src.files);
